@@ -330,7 +330,8 @@ class Script:
         a = ["dwarf", pres] + fdes_tokens(sec_fdes)
         b = [str(len(secs))]
         for name, data, rngs in secs:
-            b += [name, hexs(data)] + ([hx(rngs[0]), hx(rngs[1])] if rngs else ["-", "-"])
+            # section ranges are u64 in the API: a range that would end beyond the address space is clipped
+            b += [name, hexs(data)] + ([hx(min(rngs[0], M64)), hx(min(rngs[1], M64))] if rngs else ["-", "-"])
         return self.add("mod %s %s %s %s %s A %s B %s" % (mid, hx(start), hx(end), hx(base_avma), hx(base_svma),
                                                          " ".join(a), " ".join(b)))
     def text(self):
